@@ -22,6 +22,8 @@ type Clause struct {
 type AtCall struct {
 	Callee string // suffix-matched against the callee's qualified name
 	Kind   string // "assert" | "assume"
+	After  bool   // evaluated after the call returns ($ret is the result)
+	Let    string // kind "let": ghost name bound to the expression's value at that point
 	Cl     Clause
 }
 
@@ -355,17 +357,27 @@ func (cs *ContractSet) directive(cur **Contract, body, path string, ln int, pkgP
 		c.Arith = rest
 	case "guarded":
 		c.Guarded = append(c.Guarded, rest)
-	case "at":
-		// at call Callee assert expr
+	case "at", "after":
+		// at call Callee assert expr   |   after call Callee assume expr (evaluated in the post-call state)
 		fs := strings.SplitN(rest, " ", 4)
-		if len(fs) < 4 || fs[0] != "call" || (fs[2] != "assert" && fs[2] != "assume") {
-			return fail("at call <callee> assert|assume <expr>")
+		if len(fs) < 4 || fs[0] != "call" || (fs[2] != "assert" && fs[2] != "assume" && fs[2] != "let") {
+			return fail("at call <callee> assert|assume <expr>  |  after call <callee> let <name> = <expr>")
 		}
-		cl, err := mk(fs[3])
+		letName := ""
+		src := fs[3]
+		if fs[2] == "let" {
+			i := strings.Index(src, "=")
+			if i < 0 {
+				return fail("let <name> = <expr>")
+			}
+			letName = strings.TrimSpace(src[:i])
+			src = strings.TrimSpace(src[i+1:])
+		}
+		cl, err := mk(src)
 		if err != nil {
 			return err
 		}
-		c.AtCalls = append(c.AtCalls, AtCall{Callee: fs[1], Kind: fs[2], Cl: cl})
+		c.AtCalls = append(c.AtCalls, AtCall{Callee: fs[1], Kind: fs[2], Cl: cl, After: word == "after", Let: letName})
 	default:
 		return fail("unknown directive %q", word)
 	}
